@@ -37,11 +37,7 @@ pub fn shim_slice_read_u16<'a>(data: &mut &'a [u8]) -> (r: io::Result<u16>)
             && final(data)@ == old(data)@.subrange(2, old(data)@.len() as int),
 { unimplemented!() }
 
-// std::num::Wrapping<T> (`pub struct Wrapping<T>(pub T)`): made known to Verus as a type so that the real
-// `struct ZipCryptoKeys` can be extracted; no operation on it is used or specified in this unit.
-#[verifier::reject_recursive_types(T)]
-#[verifier::external_type_specification]
-pub struct ExWrapping<T>(std::num::Wrapping<T>);
+// (std::num::Wrapping<T> is made known to Verus in shims/zipcrypto_spec.rs, included through common/writer_types.rs)
 
 // `?` on an io::Result inside a function returning ZipResult converts the error with `From::from`
 // (language definition of `?`).  The installed vstd specifies that conversion only through the uninterpreted
